@@ -187,6 +187,9 @@ func (e *entry) GetSdcpbPath() *sdcpb.Path {
 	// The tree keeps one path object per node and hands out that object, as a data tree that stores
 	// its nodes' paths does: a machine that extends it in place changes what every later run sees.
 	fresh := f(e.path)
+	// (the stored element slice has room behind its last element, as a slice built by appending has:
+	// whoever appends to it in place writes into memory that every holder of the path shares)
+	fresh.Elem = append(make([]*sdcpb.PathElem, 0, len(fresh.Elem)+3), fresh.Elem...)
 	if old, ok := storedPaths.LoadOrStore(Canon(fresh), fresh); ok {
 		return old.(*sdcpb.Path)
 	}
